@@ -16,19 +16,19 @@ type TV struct {
 }
 
 type EvalCtx struct {
-	c       *Enc
-	fr      *Frame
-	st      *State
-	old     *State
-	vars    map[string]TV
-	visited string // heap var of the visited set of the current loop ("" if none)
-	visKey  Sort
-	depth   int
-	inOld   bool
-	atEntry bool
-	entrySt *State
+	c        *Enc
+	fr       *Frame
+	st       *State
+	old      *State
+	vars     map[string]TV
+	visited  string // heap var of the visited set of the current loop ("" if none)
+	visKey   Sort
+	depth    int
+	inOld    bool
+	atEntry  bool
+	entrySt  *State
 	stepMode bool
-	resolve func(name string, x *EvalCtx) (TV, bool) // local variable resolver (loop invariants)
+	resolve  func(name string, x *EvalCtx) (TV, bool) // local variable resolver (loop invariants)
 }
 
 func (x *EvalCtx) with(vars map[string]TV) *EvalCtx {
@@ -151,6 +151,14 @@ func (x *EvalCtx) evalIdent(name string) TV {
 	if x.resolve != nil {
 		if v, ok := x.resolve(name, x); ok {
 			return v
+		}
+	}
+	// ghost_<name>: the ghost variable <name> even when a parameter or local has the same name
+	if strings.HasPrefix(name, "ghost_") {
+		if cell, ok := c.ghostCell(strings.TrimPrefix(name, "ghost_")); ok {
+			g := c.eng.cf.Ghosts[strings.TrimPrefix(name, "ghost_")]
+			ty, _ := c.eng.resolveType(g.Type)
+			return TV{c.get(x.st, cell), ty}
 		}
 	}
 	// callback bookkeeping of higher-order contracts
@@ -338,7 +346,18 @@ func (x *EvalCtx) evalIndex(e *Expr) TV {
 func (c *Enc) sliceElem(st *State, heap string, es Sort, sl Term, i Term) Term {
 	arr := Term{app("sl-arr", sl), SInt}
 	off := Term{app("sl-off", sl), SInt}
-	return Select(Select(c.get(st, heap), arr, ArraySort(SInt, es)), Add(off, i), es)
+	return Select(Select(c.get(st, heap), arr, ArraySort(SInt, es)), pos(off, i), es)
+}
+
+// pos is the absolute position of element i of a slice window starting at off. It is written with the
+// function idx (axiom: idx(o, i) = o + i, instantiated per ground application) instead of "+", so that element
+// terms are usable as e-matching triggers: the solver's arithmetic normaliser rewrites sums, which makes
+// "(+ off i)" unmatchable as soon as i is itself a sum.
+func pos(off, i Term) Term {
+	if off.S == "0" {
+		return i
+	}
+	return Term{app("idx", off, i), SInt}
 }
 
 func slLen(sl Term) Term { return Term{app("sl-len", sl), SInt} }
